@@ -34,7 +34,10 @@ def _run_shard(root, fam, seed, n, outdir, extra):
             detail = hang[:3000]
         else:
             what = "harness process died (exit %s) while running case %d" % (rc, idx)
-            detail = tail[-3000:]
+            m = re.search(r"(fatal error:[^\n]*|panic:[^\n]*|runtime: goroutine stack exceeds[^\n]*)", tail)
+            if m:
+                what += " [" + m.group(1).strip() + "]"
+            detail = tail[:1200] + ("\n...\n" + tail[-1200:] if len(tail) > 2400 else tail[1200:])
         return ({"what": what, "index": idx, "case": cur, "detail": detail}, None)
     uni = os.path.join(outdir, "unicode.txt")
     if not os.path.exists(uni):
